@@ -27,3 +27,41 @@ Definition move_dist_lt_r (rnd : Q -> Q) (rate accel time : Z) (accum : option Z
 (* a number with a significand of fewer than 103 bits: k / 2^n *)
 Definition rep103 (x : Q) : Prop := exists k n : Z, 0 <= n /\ Z.abs k < 2 ^ 103 /\ (x == iz k / iz (2 ^ n))%Q.
 
+
+(* ---- move_dist_t3: the same, with the inexact division by 6 ---- *)
+(* a rounding operator with relative error at most 2^-102 (round to nearest at 103 bits has 2^-103) *)
+Definition eps103 : Q := 1 # (2 ^ 102).
+(* python's float literal 0.01 *)
+Definition c001 : Q := 5764607523034235 # (2 ^ 59).
+
+Definition move_dist_t3_r (rnd : Q -> Q) (time rate accel jerk : Z) (accum : option Z) : Z * Z :=
+  if time =? 0 then (0, 0) else
+  let half_accel := Z.quot accel 2 in
+  let jerk_over_six := Z.quot jerk 6 in
+  let accum := match accum with None => clear_t3 rate accel jerk | Some c => c end in
+  let t1 := rnd (iz accel / 2)%Q in
+  let t2 := rnd (iz rate + t1)%Q in
+  let t3 := rnd (t2 - iz half_accel)%Q in
+  let t4 := rnd (t3 + iz jerk_over_six)%Q in
+  let t5 := rnd (iz jerk / 6)%Q in
+  let re0 := rnd (t4 - t5)%Q in
+  let d := rnd (re0 - iz rate)%Q in
+  let re := if Qltb (Qabs d) c001 then iz rate else re0 in
+  let u1 := rnd (re * iz time)%Q in
+  let u2 := rnd (iz accum + u1)%Q in
+  let v1 := rnd (iz accel * iz time)%Q in
+  let v2 := rnd (v1 * iz time)%Q in
+  let v3 := rnd (v2 / 2)%Q in
+  let u3 := rnd (u2 + v3)%Q in
+  let w1 := rnd (iz jerk * iz time)%Q in
+  let w2 := rnd (w1 * iz time)%Q in
+  let w3 := rnd (w2 * iz time)%Q in
+  let w4 := rnd (w3 / 6)%Q in
+  let af := rnd (u3 + w4)%Q in
+  let n := Qround_he af in
+  let w := rnd (iz n / iz 2147483648)%Q in
+  let pos_final := Qfloor w in
+  let pr := rnd (iz 2147483648 * iz pos_final)%Q in
+  let af2 := rnd (iz n - pr)%Q in
+  (pos_final, Qtrunc af2).
+
